@@ -38,6 +38,7 @@ pub static mut FLUSHES: u32 = 0;
 pub static mut CB_CALLS: u32 = 0;
 pub static mut CB_DESTRUCTS: u32 = 0;
 pub static mut CB_RET: u64 = 0;
+pub static mut CB_COOKIE: usize = 0;
 
 /// bytes a method body wrote into its DiplomatWrite
 pub static mut WROTE: [u8; 8] = [0; 8];
